@@ -238,6 +238,10 @@ def raise_name(e):
     return "python:%s:%s" % (type(e).__name__, msg[:80])
 
 
+class LearnError(Exception):
+    """the device-information cache ignored an I-Am (genuine defect of the tree, C12)"""
+
+
 # ------------------------------------------------------------------ the rig
 
 class Lock:
@@ -245,7 +249,8 @@ class Lock:
     di: list of [peer, info] learned BEFORE the run the way an application
     does (iam_device_info + property edits); peers are small integers."""
 
-    def __init__(self, cfg, di=(), next_id=1):
+    def __init__(self, cfg, di=(), next_id=1, strict_learn=False):
+        self.strict_learn = strict_learn
         core.bind_repo()
         import logging
         logging.getLogger("bacpypes").setLevel(logging.CRITICAL + 1)   # the ASAP logs what it swallows
@@ -511,7 +516,16 @@ class Lock:
         self.cache.iam_device_info(iam)
         rec = self.cache.get_device_info(self.addrs[peer])
         if rec is None:
-            raise core.Infra("device info cache did not store the I-Am (repair Tsm-5 missing?)")
+            if self.strict_learn:
+                raise LearnError("DeviceInfoCache.iam_device_info did not store the record of a new device")
+            # fall back to what the repository's own tests do: put the record in by hand
+            from bacpypes.app import DeviceInfo
+            rec = DeviceInfo(1000 + peer, self.addrs[peer])
+            rec.maxApduLengthAccepted = info["maxApdu"] if info["maxApdu"] is not None else 1024
+            rec.segmentationSupported = SEG_NAMES[info["seg"]]
+            self.cache.cache[self.addrs[peer]] = rec
+            self.cache.cache[1000 + peer] = rec
+            self.cache.update_device_info(rec)
         if info["maxApdu"] is None:
             rec.maxApduLengthAccepted = None
         rec.maxSegmentsAccepted = info["maxSegs"]
